@@ -1,9 +1,11 @@
 #!/bin/bash
-# background sweep: several master seeds per check at a chosen run count (used with `vp run`)
-# usage: ./sweep.sh "<ids>" <runs> <seed-from> <seed-to>
+# background sweep (used with `vp run`): every claimed check at a given tier for a range of master seeds
+# usage: ./sweep.sh "<ids>|all" <quick|thorough> <seed-from> <seed-to>
 ./setup.sh >/dev/null 2>&1 || { echo setup failed; exit 2; }
-for id in $1; do
-  for seed in $(seq $3 $4); do
-    VERIF_SEED=$seed VERIF_RUNS=$2 ./target/release/crux-sim check $id quick 2>&1 | grep -v "^check\|KNOWN-FINDING" | cut -c1-600
+IDS="$1"
+[ "$IDS" = all ] && IDS=$(python3 -c "import json;print(' '.join(c['property_id'] for c in json.load(open('MANIFEST.json'))['checks']))")
+for seed in $(seq $3 $4); do
+  for id in $IDS; do
+    VERIF_SEED=$seed ./target/release/crux-sim check $id $2 2>&1 | grep -v "^check\|KNOWN-FINDING" | cut -c1-700 | sed "s/^/[seed $seed] /"
   done
 done
